@@ -1,9 +1,13 @@
-// C24 harness: entries written through the real filer.FilerStoreWrapper
-// (InsertEntry / UpdateEntry) on the real leveldb, leveldb2 and leveldb3 stores in
-// temporary directories, read back with FindEntry and ListDirectoryEntries.
-// Reported per case: which fields of the read-back entry differ from the written
-// one (small enum), the read-back file id strings, whether the raw stored value is
-// gzip, and the measured protobuf / gzip sizes of the marshalled entry.
+// C24 harness: per case a sequence of entries (sibling names, overwrites, a
+// subdirectory) written through the real filer.FilerStoreWrapper (InsertEntry /
+// UpdateEntry) on the real leveldb, leveldb2 and leveldb3 stores in temporary
+// directories; every name is read back with FindEntry, with the wrapper's
+// ListDirectoryEntries (whole directory and one page) and with
+// ListDirectoryPrefixedEntries (prefix, start, inclusive, limit: the filer's
+// production listing path).  Reported per read-back entry: which fields differ from
+// the entry last written under that name (small enum), the read-back file id
+// strings, the raw FileId fields of the prefixed listing; per write: whether the raw
+// stored value is gzip and the measured protobuf / gzip sizes of the marshalled entry.
 package main
 
 import (
@@ -62,23 +66,23 @@ type mRemote struct {
 	ETag string
 }
 type mEntry struct {
-	Mtime, Crtime         time.Time
-	Mode                  uint32
-	Uid, Gid              uint32
-	Mime, Repl, Coll      string
-	TtlSec                int32
-	Disk, User            string
-	Groups                []string
-	Symlink               string
-	Md5                   []byte
-	FileSize              uint64
-	ExtKeys               []string // sorted
-	Ext                   map[string][]byte
-	Chunks                []mChunk
-	HardLinkId            []byte
-	HardLinkCounter       int32
-	Content               []byte
-	Remote                *mRemote
+	Mtime, Crtime    time.Time
+	Mode             uint32
+	Uid, Gid         uint32
+	Mime, Repl, Coll string
+	TtlSec           int32
+	Disk, User       string
+	Groups           []string
+	Symlink          string
+	Md5              []byte
+	FileSize         uint64
+	ExtKeys          []string // sorted
+	Ext              map[string][]byte
+	Chunks           []mChunk
+	HardLinkId       []byte
+	HardLinkCounter  int32
+	Content          []byte
+	Remote           *mRemote
 }
 
 func pbFid(f *mFid) *filer_pb.FileId {
@@ -182,6 +186,14 @@ func diff(m *mEntry, r *filer.Entry) []uint64 {
 			d = append(d, code)
 		}
 	}
+	diff0(m, r, add)
+	add(24, m.Mtime.Nanosecond() == r.Mtime.Nanosecond())
+	add(25, m.Crtime.Nanosecond() == r.Crtime.Nanosecond())
+	sort.Slice(d, func(i, j int) bool { return d[i] < d[j] })
+	return d
+}
+
+func diff0(m *mEntry, r *filer.Entry, add func(code uint64, same bool)) {
 	add(0, m.Mtime.Unix() == r.Mtime.Unix())
 	add(1, m.Crtime.Unix() == r.Crtime.Unix())
 	add(2, m.Mode == uint32(r.Mode))
@@ -234,7 +246,6 @@ func diff(m *mEntry, r *filer.Entry) []uint64 {
 		remSame = m.Remote.T == r.Remote.LastModifiedAt && m.Remote.S == r.Remote.Size && m.Remote.ETag == r.Remote.ETag
 	}
 	add(23, remSame)
-	return d
 }
 
 // ---- Coq printing ----
@@ -267,7 +278,7 @@ func coqEntry(m *mEntry) string {
 	for i, g := range m.Groups {
 		gs[i] = hx.Str(g)
 	}
-	attr := fmt.Sprintf("(mka %s %s %s %s %s %s %s %s %s %s %s %s %s %s %s)", hx.Z(m.Mtime.Unix()), hx.Z(m.Crtime.Unix()),
+	attr := fmt.Sprintf("(mka %s %s %s %s %s %s %s %s %s %s %s %s %s %s %s %s %s)", hx.Z(m.Mtime.Unix()), hx.N(uint64(m.Mtime.Nanosecond())), hx.Z(m.Crtime.Unix()), hx.N(uint64(m.Crtime.Nanosecond())),
 		hx.N(uint64(m.Mode)), hx.N(uint64(m.Uid)), hx.N(uint64(m.Gid)), hx.Str(m.Mime), hx.Str(m.Repl), hx.Str(m.Coll),
 		hx.Z(int64(m.TtlSec)), hx.Str(m.Disk), hx.Str(m.User), hx.List(gs), hx.Str(m.Symlink), coqBytes(m.Md5), hx.N(m.FileSize))
 	var ext []string
@@ -310,7 +321,7 @@ var fixedIds = []string{
 	"7,ff00000001",
 }
 
-const keyZeroId = "3,00637037d6" // finding 1
+const keyZeroId = "3,00637037d6" // former finding 1 (repaired): must read back as itself
 
 func genId(r *hx.Rng, allowKeyZero bool) string {
 	switch k := r.Intn(20); {
@@ -375,15 +386,21 @@ func genBytes(r *hx.Rng, gzLook bool) []byte {
 	}
 }
 
-func genEntry(r *hx.Rng, nchunks int, octet, keyZero bool) *mEntry {
+func genEntry(r *hx.Rng, nchunks int, octet, keyZero, subsec bool) *mEntry {
 	m := &mEntry{}
+	ns := func() int64 {
+		if subsec && r.Chance(2, 3) {
+			return int64(r.PickInt([]int{1, 500000000, 999999999, r.Intn(1000000000)}))
+		}
+		return 0
+	}
 	if r.Chance(1, 10) {
 		// zero time.Time
 	} else {
-		m.Mtime = time.Unix(int64(r.Next()>>uint(r.Range(30, 50))), int64(r.Intn(1000000000)))
+		m.Mtime = time.Unix(int64(r.Next()>>uint(r.Range(30, 50))), ns())
 	}
 	if !r.Chance(1, 10) {
-		m.Crtime = time.Unix(int64(r.Next()>>uint(r.Range(30, 50))), int64(r.Intn(1000000000)))
+		m.Crtime = time.Unix(int64(r.Next()>>uint(r.Range(30, 50))), ns())
 	}
 	m.Mode = uint32(r.Next()) & 0x1ff
 	if r.Chance(1, 5) {
@@ -468,16 +485,18 @@ type storeT struct {
 	w     *filer.FilerStoreWrapper
 }
 
-func rawKey(kind int, dir, name string) []byte {
-	switch kind {
-	case 0: // leveldb: dir 0x00 name
+// the raw value InsertEntry stored for dir/name
+func (s *storeT) raw(ctx context.Context, dir, name string) ([]byte, error) {
+	switch st := s.store.(type) {
+	case *leveldb.LevelDBStore: // key: dir 0x00 name, same db as KvGet
 		k := append([]byte(dir), 0)
-		return append(k, []byte(name)...)
-	case 2: // leveldb3 default db: md5(dir) name
-		h := md5.Sum([]byte(dir))
-		return append(h[:], []byte(name)...)
+		return st.KvGet(ctx, append(k, []byte(name)...))
+	case *leveldb2.LevelDB2Store:
+		return st.VerifRawGet(dir, name)
+	case *leveldb3.LevelDB3Store:
+		return st.VerifRawGet(util.FullPath(dir + "/" + name))
 	}
-	return nil
+	return nil, fmt.Errorf("unknown store")
 }
 
 func gunzip(b []byte) ([]byte, error) {
@@ -488,10 +507,28 @@ func gunzip(b []byte) ([]byte, error) {
 	return ioutil.ReadAll(r)
 }
 
+type wrec struct {
+	dir, name  string
+	m          *mEntry
+	update, ok bool
+	head       []byte
+	blen, glen int
+	gz         bool
+}
+
+type rbT struct {
+	name string
+	diff []uint64
+	ids  [][2]string
+}
+
+var nameUniverse = []string{"a", "a b", "ab", "a.txt", "A", "b", "f", "file.txt", "~z", "fi"}
+
 func main() {
 	out := hx.Flags("C24", 120)
-	out.Rule = "one random entry per case written through FilerStoreWrapper.InsertEntry/UpdateEntry (1/3 over an older different entry at the same path) on leveldb/leveldb2/leveldb3 (round robin), read back with FindEntry and ListDirectoryEntries; chunks 0..120 (0..80 in the quick tier) concentrated around the >50 threshold; file ids from a fixed universe of canonical / non-canonical / unparsable forms plus random ids in string, object and both forms; attributes, extended, hard link id+counter, inline content (some starting with 1f 8b), remote; the first 2 cases of every shard are the witnesses of findings 0 (Mime application/octet-stream) and 1 (needle key 0); non-trivial = insert succeeded and the entry has chunks or content; distinct = store + op + printed entry"
+	out.Rule = "per case 1..6 entries written through FilerStoreWrapper.InsertEntry/UpdateEntry into one directory (names from a universe of 10 with prefixes of each other, so overwrites and siblings happen; 1/6 of the writes go to a subdirectory) on leveldb/leveldb2/leveldb3 (round robin; 1/4 of the leveldb3 cases under /buckets/<b>/); then every name is read back with FindEntry, wrapper.ListDirectoryEntries (whole directory; one page with random start/inclusive/limit) and wrapper.ListDirectoryPrefixedEntries (random prefix/start/inclusive/limit; raw FileId fields too); one entry per case has 0..120 chunks (0..80 in the quick tier) concentrated around the >50 threshold, the others 0..3; file ids from a fixed universe of canonical / non-canonical / unparsable forms (needle key 0 included) plus random ids in string, object and both forms; attributes, extended, hard link id+counter (overwrites with the same and with a different link), inline content (some starting with 1f 8b), remote; 1/4 of the cases use times with a sub-second part; the first 3 cases of shard 0 are the witnesses of finding 0 (Mime application/octet-stream), of the repaired former finding 1 (needle key 0: must be verdict 0) and of finding 2 (sub-second Mtime); non-trivial = all writes succeeded and a final entry has chunks or content; distinct = store + printed writes + query"
 	root := hx.NewRng(out.Seed)
+	shard0 := out.Seed%1000 == 0
 	maxChunks := 120
 	if out.Tier == "quick" {
 		maxChunks = 80 // Coq parses about 50 KB of case text per second: the quick tier keeps entries smaller
@@ -508,138 +545,245 @@ func main() {
 	for i := 0; i < out.N; i++ {
 		r := root.Fork()
 		s := stores[i%3]
-		var m *mEntry
-		kind := "random"
-		switch {
-		case i == 0: // finding 0
-			m = genEntry(r, 2, true, false)
-			for j := range m.Chunks {
-				m.Chunks[j] = mChunk{FileId: "3,01637037d6", Size: 5}
-			}
-			kind = "finding0-octet-stream"
-		case i == 1: // finding 1
-			m = genEntry(r, 1, false, false)
-			m.Chunks[0] = mChunk{FileId: keyZeroId, Size: 5}
-			kind = "finding1-key-zero"
-		default:
-			m = genEntry(r, genNChunks(r, maxChunks), r.Chance(1, 25), r.Chance(1, 12))
-		}
 		dir := fmt.Sprintf("/d%d", i)
 		if s.kind == 2 && r.Chance(1, 4) {
 			dir = fmt.Sprintf("/buckets/b%d/d%d", i%2, i) // leveldb3 keeps buckets in their own db
 		}
-		name := r.PickStr([]string{"f", "file.txt", "a b"})
-		path := dir + "/" + name
-		hadPrev := i >= 2 && r.Chance(1, 3)
-		if hadPrev {
-			prev := genEntry(r, r.PickInt([]int{0, 2, 60}), false, false)
-			if r.Chance(1, 2) && len(m.HardLinkId) > 0 {
-				prev.HardLinkId, prev.HardLinkCounter = cp(m.HardLinkId), 2 // same link
+		kind := "random"
+		var ws []*wrec
+		qStart, qIncl, qLimit, qPrefix := "", true, 1000, ""
+		switch {
+		case i == 0 && shard0: // finding 0
+			m := genEntry(r, 2, true, false, false)
+			for j := range m.Chunks {
+				m.Chunks[j] = mChunk{FileId: "3,01637037d6", Size: 5}
 			}
-			hx.Must(s.w.InsertEntry(ctx, prev.toFiler(path)))
-		}
-		viaUpdate := r.Chance(1, 3)
-		e := m.toFiler(path)
-		var ierr error
-		if viaUpdate {
-			ierr = s.w.UpdateEntry(ctx, e)
-		} else {
-			ierr = s.w.InsertEntry(ctx, e)
-		}
-		// the marshalled entry and its gzip: from the raw stored value where the store lets us read it
-		storedGz := "None"
-		var blob []byte
-		gzLen := 0
-		if key := rawKey(s.kind, dir, name); key != nil && !strings.HasPrefix(dir, "/buckets/") && ierr == nil {
-			raw, kerr := s.store.KvGet(ctx, key)
-			hx.Must(kerr)
-			if util.IsGzippedContent(raw) {
-				storedGz = hx.Some("true")
-				blob, err = gunzip(raw)
-				hx.Must(err)
-				gzLen = len(raw)
-			} else {
-				storedGz = hx.Some("false")
-				blob = raw
-			}
-		} else {
-			// e was prepared in place by the wrapper (ids in object form, Mime rule)
-			blob, err = e.EncodeAttributesAndChunks()
-			hx.Must(err)
-		}
-		if gzLen == 0 {
-			g, gerr := util.GzipData(blob)
-			hx.Must(gerr)
-			gzLen = len(g)
-		}
-		head := blob
-		if len(head) > 2 {
-			head = head[:2]
-		}
-		var findDiff, listDiff []uint64
-		var findIds, listIds [][2]string
-		names := 0
-		if ierr == nil {
-			got, ferr := s.w.FindEntry(ctx, util.FullPath(path))
-			if ferr != nil {
-				findDiff = []uint64{98}
-			} else {
-				findDiff = diff(m, got)
-				for _, c := range got.Chunks {
-					a, b := pbIds(c)
-					findIds = append(findIds, [2]string{a, b})
-				}
-			}
-			listDiff = []uint64{97}
-			_, lerr := s.w.ListDirectoryEntries(ctx, util.FullPath(dir), "", true, 1000, func(en *filer.Entry) bool {
-				names++
-				if en.Name() == name {
-					listDiff = diff(m, en)
-					for _, c := range en.Chunks {
-						a, b := pbIds(c)
-						listIds = append(listIds, [2]string{a, b})
-					}
-				}
-				return true
-			})
-			if lerr != nil {
-				listDiff = []uint64{96}
-			}
-		}
-		// identical id lists are printed once and shared by a Coq `let` (Coq parses slowly)
-		fi, li, pre := coqIds(findIds), coqIds(listIds), ""
-		if fi == li && len(findIds) > 0 {
-			pre, fi, li = "let ids := "+fi+" in ", "ids", "ids"
-		}
-		term := fmt.Sprintf("(%s{| store := %s; via_update := %s; had_previous := %s; dir := %s; name := %s; ent := %s; blob_head := %s; blob_len := %s; gzip_len := %s; i_insert_ok := %s; i_stored_gz := %s; i_find_diff := %s; i_list_diff := %s; i_find_ids := %s; i_list_ids := %s; i_list_names := %s |})",
-			pre, hx.N(uint64(s.kind)), hx.Bool(viaUpdate), hx.Bool(hadPrev), hx.Str(dir), hx.Str(name), coqEntry(m),
-			coqBytes(head), hx.N(uint64(len(blob))), hx.N(uint64(gzLen)), hx.Bool(ierr == nil), storedGz,
-			hx.NList(findDiff), hx.NList(listDiff), fi, li, hx.N(uint64(names)))
-		canon := fmt.Sprintf("%s|u=%v|p=%v|%x", s.name, viaUpdate, hadPrev, md5.Sum([]byte(coqEntry(m))))
-		out.Add(term, canon, ierr == nil && (len(m.Chunks) > 0 || len(m.Content) > 0), kind)
-		out.Count("store:"+s.name, 1)
-		switch n := len(m.Chunks); {
-		case n == 0:
-			out.Count("chunks:0", 1)
-		case n <= 50:
-			out.Count("chunks:1..50", 1)
+			ws = append(ws, &wrec{dir: dir, name: "f", m: m})
+			kind = "finding0-octet-stream"
+		case i == 1 && shard0: // former finding 1, repaired
+			m := genEntry(r, 2, false, false, false)
+			m.Chunks[0] = mChunk{FileId: keyZeroId, Size: 5}
+			m.Chunks[1] = mChunk{Fid: &mFid{Vid: 3, Key: 0, Cookie: 0x637037d6}, SourceFileId: "7,0000000000000000000000ff", Size: 6}
+			ws = append(ws, &wrec{dir: dir, name: "f", m: m})
+			kind = "repaired-key-zero"
+		case i == 2 && shard0: // finding 2
+			m := genEntry(r, 1, false, false, false)
+			m.Mtime = time.Unix(43200, 500000000)
+			m.Chunks[0] = mChunk{FileId: "3,01637037d6", Size: 5}
+			ws = append(ws, &wrec{dir: dir, name: "f", m: m})
+			kind = "finding2-subsecond-mtime"
 		default:
-			out.Count("chunks:51..120", 1)
+			n := r.Range(1, 6)
+			big := r.Intn(n)
+			subsec := r.Chance(1, 4)
+			links := map[string][]byte{}
+			for j := 0; j < n; j++ {
+				nch := r.Range(0, 3)
+				if j == big {
+					nch = genNChunks(r, maxChunks)
+				}
+				m := genEntry(r, nch, r.Chance(1, 30), r.Chance(1, 6), subsec)
+				w := &wrec{dir: dir, name: r.PickStr(nameUniverse), m: m, update: r.Chance(1, 3)}
+				if r.Chance(1, 6) {
+					w.dir, w.name = dir+"/a", "x"
+				}
+				if old, ok := links[w.dir+"/"+w.name]; ok && len(m.HardLinkId) > 0 && r.Chance(1, 2) {
+					m.HardLinkId, m.HardLinkCounter = cp(old), 2 // the same link again
+				}
+				if len(m.HardLinkId) > 0 {
+					links[w.dir+"/"+w.name] = m.HardLinkId
+				} else {
+					delete(links, w.dir+"/"+w.name)
+				}
+				ws = append(ws, w)
+			}
+			qStart = r.PickStr(append([]string{"", "", "az", "a ", "zz"}, nameUniverse...))
+			qIncl = r.Bool()
+			qLimit = r.PickInt([]int{1, 2, 3, 1000})
+			qPrefix = r.PickStr([]string{"", "", "a", "a ", "f", "fi", "b", "zz", "A"})
 		}
-		out.Count("stored:"+storedGz, 1)
-		if len(m.HardLinkId) > 0 {
-			out.Count("hardlink", 1)
+		// ---- the writes ----
+		allOk := true
+		last := map[string]*wrec{}
+		for _, w := range ws {
+			e := w.m.toFiler(w.dir + "/" + w.name)
+			var ierr error
+			if w.update {
+				ierr = s.w.UpdateEntry(ctx, e)
+			} else {
+				ierr = s.w.InsertEntry(ctx, e)
+			}
+			w.ok = ierr == nil
+			var blob []byte
+			if ierr == nil {
+				raw, rerr := s.raw(ctx, w.dir, w.name)
+				hx.Must(rerr)
+				if util.IsGzippedContent(raw) {
+					w.gz = true
+					blob, err = gunzip(raw)
+					hx.Must(err)
+					w.glen = len(raw)
+				} else {
+					blob = raw
+				}
+			} else {
+				allOk = false
+				blob, err = e.EncodeAttributesAndChunks()
+				hx.Must(err)
+			}
+			if w.glen == 0 {
+				g, gerr := util.GzipData(blob)
+				hx.Must(gerr)
+				w.glen = len(g)
+			}
+			w.blen = len(blob)
+			w.head = blob
+			if len(w.head) > 2 {
+				w.head = w.head[:2]
+			}
+			if w.dir == dir {
+				last[w.name] = w
+			}
 		}
-		if hadPrev {
-			out.Count("overwrite", 1)
+		// ---- reading back ----
+		var names []string
+		for n := range last {
+			names = append(names, n)
 		}
-		if viaUpdate {
-			out.Count("op:update", 1)
-		} else {
-			out.Count("op:insert", 1)
+		sort.Strings(names)
+		mkRb := func(en *filer.Entry) rbT {
+			b := rbT{name: en.Name(), diff: []uint64{95}}
+			if w, ok := last[b.name]; ok {
+				b.diff = diff(w.m, en)
+			}
+			for _, c := range en.Chunks {
+				x, y := pbIds(c)
+				b.ids = append(b.ids, [2]string{x, y})
+			}
+			return b
 		}
-		if len(findDiff) > 0 {
-			out.Count(fmt.Sprintf("finddiff:%v", findDiff), 1)
+		var finds, wlist, plist []rbT
+		var wpage []string
+		var plistRaw [][][2]string
+		var gzs []string
+		for _, n := range names {
+			got, ferr := s.w.FindEntry(ctx, util.FullPath(dir+"/"+n))
+			if ferr != nil {
+				finds = append(finds, rbT{name: n, diff: []uint64{98}})
+			} else {
+				b := mkRb(got)
+				b.name = n
+				finds = append(finds, b)
+			}
+			gzs = append(gzs, hx.Some(hx.Bool(last[n].gz)))
+		}
+		_, lerr := s.w.ListDirectoryEntries(ctx, util.FullPath(dir), "", true, 1000, func(en *filer.Entry) bool {
+			wlist = append(wlist, mkRb(en))
+			return true
+		})
+		hx.Must(lerr)
+		_, lerr = s.w.ListDirectoryEntries(ctx, util.FullPath(dir), qStart, qIncl, int64(qLimit), func(en *filer.Entry) bool {
+			wpage = append(wpage, en.Name())
+			return true
+		})
+		hx.Must(lerr)
+		_, lerr = s.w.ListDirectoryPrefixedEntries(ctx, util.FullPath(dir), qStart, qIncl, int64(qLimit), qPrefix, func(en *filer.Entry) bool {
+			var raw [][2]string
+			for _, c := range en.Chunks {
+				raw = append(raw, [2]string{c.FileId, c.SourceFileId})
+			}
+			plistRaw = append(plistRaw, raw)
+			plist = append(plist, mkRb(en))
+			return true
+		})
+		hx.Must(lerr)
+		// ---- printing: identical id lists are printed once and shared by Coq `let`s (Coq parses slowly) ----
+		var lets []string
+		shared := map[string]string{}
+		share := func(ids [][2]string) string {
+			t := coqIds(ids)
+			if len(ids) < 2 {
+				return t
+			}
+			if v, ok := shared[t]; ok {
+				return v
+			}
+			v := fmt.Sprintf("i%d", len(shared))
+			shared[t] = v
+			lets = append(lets, "let "+v+" := "+t+" in ")
+			return v
+		}
+		rbs := func(bs []rbT) string {
+			xs := make([]string, len(bs))
+			for j, b := range bs {
+				xs[j] = fmt.Sprintf("(mkb %s %s %s)", hx.Str(b.name), hx.NList(b.diff), share(b.ids))
+			}
+			return hx.List(xs)
+		}
+		strs := func(xs []string) string {
+			ys := make([]string, len(xs))
+			for j, x := range xs {
+				ys[j] = hx.Str(x)
+			}
+			return hx.List(ys)
+		}
+		wts := make([]string, len(ws))
+		canon := s.name
+		for j, w := range ws {
+			et := coqEntry(w.m)
+			wts[j] = fmt.Sprintf("(mkw %s %s %s %s %s %s %s %s)", hx.Str(w.dir), hx.Str(w.name), hx.Bool(w.update), et,
+				coqBytes(w.head), hx.N(uint64(w.blen)), hx.N(uint64(w.glen)), hx.Bool(w.ok))
+			canon += fmt.Sprintf("|%s/%s|u=%v|%x", w.dir[len(dir):], w.name, w.update, md5.Sum([]byte(et)))
+		}
+		canon += fmt.Sprintf("|q=%q,%v,%d,%q", qStart, qIncl, qLimit, qPrefix)
+		fTerm, wTerm, pTerm := rbs(finds), rbs(wlist), rbs(plist)
+		raws := make([]string, len(plistRaw))
+		for j, x := range plistRaw {
+			raws[j] = share(x)
+		}
+		term := fmt.Sprintf("(%s{| store := %s; dir := %s; writes := %s; q_start := %s; q_incl := %s; q_limit := %s; q_prefix := %s; i_names := %s; i_stored_gz := %s; i_find := %s; i_wlist := %s; i_wpage := %s; i_plist := %s; i_plist_raw := %s |})",
+			strings.Join(lets, ""), hx.N(uint64(s.kind)), hx.Str(dir), hx.List(wts), hx.Str(qStart), hx.Bool(qIncl), hx.N(uint64(qLimit)), hx.Str(qPrefix),
+			strs(names), hx.List(gzs), fTerm, wTerm, strs(wpage), pTerm, hx.List(raws))
+		nontrivial := false
+		for _, n := range names {
+			if m := last[n].m; len(m.Chunks) > 0 || len(m.Content) > 0 {
+				nontrivial = true
+			}
+		}
+		out.Add(term, canon, allOk && nontrivial, kind)
+		out.Count("store:"+s.name, 1)
+		out.Count(fmt.Sprintf("writes:%d", len(ws)), 1)
+		out.Count(fmt.Sprintf("names:%d", len(names)), 1)
+		if len(names) < len(ws) {
+			out.Count("overwrite-or-subdir", 1)
+		}
+		out.Count(fmt.Sprintf("plist-returned:%d", len(plist)), 1)
+		if len(wpage) < len(names) {
+			out.Count("page-shorter-than-dir", 1)
+		}
+		for _, w := range ws {
+			switch n := len(w.m.Chunks); {
+			case n == 0:
+				out.Count("chunks:0", 1)
+			case n <= 50:
+				out.Count("chunks:1..50", 1)
+			default:
+				out.Count("chunks:51..120", 1)
+			}
+			out.Count(fmt.Sprintf("stored-gz:%v", w.gz), 1)
+			if len(w.m.HardLinkId) > 0 {
+				out.Count("hardlink", 1)
+			}
+			if w.update {
+				out.Count("op:update", 1)
+			} else {
+				out.Count("op:insert", 1)
+			}
+		}
+		for _, b := range finds {
+			if len(b.diff) > 0 {
+				out.Count(fmt.Sprintf("finddiff:%v", b.diff), 1)
+			}
 		}
 	}
 	for _, s := range stores {
